@@ -82,7 +82,9 @@ def run(tier, replay):
                 lib.tool_error(f"probe {f} of kind {r['kind']} does not change in the fault-free run: observation is blind")
     observed_hyp = set()
     step_of = {"set_db_ts_max": "ts_max", "write_db_ruv": "ruv_del", "write_db_ruv_add": "ruv_add", "write_identry": "entries",
-               "delete_identry": "entries", "write_idl": "idl", "sql_commit": "sql_commit"}
+               "delete_identry": "entries", "write_idl": "idl", "sql_commit": "sql_commit", "none": "none",
+               "purge_idxs": "reload", "create_table": "reload", "create_idx": "reload", "store_idx_slopes": "reload",
+               "set_db_version": "reload", "post_sql_commit": "post_commit"}
     comp_of = {"sch": "schema", "acp": "acp", "dn": "dinfo", "oa": "oauth2"}
     for t in tv["l1fail"]:
         ln = t[2] - 1
@@ -95,7 +97,7 @@ def run(tier, replay):
     classes = {}
     for r in recs:
         diff = ",".join(f for f in sorted(r["pre"]) if r["live"][f] != r["pre"][f])
-        key = f"{r['a']}/{r['kind']}/{r['point']}/{r['phase']}/{r['res']}/{diff or '-'}"
+        key = f"{r['a']}/{r['kind']}/{step_of.get(r['point'], 'names')}/{r['phase']}/{r['res']}/{diff or '-'}"
         classes[key] = classes.get(key, 0) + 1
     refs = {r["kind"]: {"points": r["n"], "passed": r["points"]} for r in recs if r["a"] == "ref"}
     kinds_run = set(refs)
@@ -103,9 +105,9 @@ def run(tier, replay):
         "evaluations": len(recs),
         "distinct_nontrivial": len([k for k in classes if not k.startswith("ref/")]),
         "rule": "one evaluation = one transaction run on a fresh copy of the file-backed server with one injected event, observed "
-                "before / after / reopened and judged by TLC; distinct = distinct (event kind, transaction kind, storage point "
-                "name, phase, result, set of observation fields changed); non-trivial = an event was injected (reference runs "
-                "excluded)",
+                "before / after / reopened and judged by TLC; distinct = distinct (event kind, transaction kind, commit step the "
+                "storage point belongs to, phase, result, set of observation fields changed); non-trivial = an event was "
+                "injected (reference runs excluded)",
         "samples": lib.sample(lines),
         "classes": classes,
         "storage_points_per_kind": refs,
@@ -115,7 +117,7 @@ def run(tier, replay):
         "model_states": mc["distinct"], "model_transitions": mc["generated"],
         "hypotheses_model": len(hyp),
         "hypotheses_confirmed_on_real_code": sorted(",".join(h) for h in observed_hyp),
-        "hypotheses_not_observed_in_kinds_run": sorted(",".join(h) for h in hyp if h[0] in kinds_run and h not in observed_hyp),
+        "model_steps_without_storage_point_in_the_kinds_run": sorted(",".join(h) for h in hyp if h[0] in kinds_run and h not in observed_hyp),
     }
     R.assumptions = [
         "a storage failure is modelled as the call returning SqliteError before the statement executes (SQLITE_FULL / IOERR "
